@@ -41,7 +41,7 @@ Definition hnil (hs : hlist) : bool := match hs with HNil => true | _ => false e
    exempted here: the hypothesis is weaker and the theorem stronger.) *)
 Fixpoint full_raise (c : cmd) : bool :=
   match c with
-  | Skip | Bind _ _ | Read _ _ | Return => true
+  | Skip | Bind _ _ | Read _ _ | Exit _ => true
   | Seq a b | Branch a b => full_raise a && full_raise b
   | While t b e | For t b e => full_raise t && full_raise b && full_raise e
   | Try rf b rl hs e f =>
@@ -378,7 +378,7 @@ Proof.
     intros p' (p2 & tf & Hp2 & Ef).
     destruct (try_finally_exec rf b rl hs e f P p2 tf ONorm p' Hfr Hp2 Ef) as (p & tr0 & Hp & Ex).
     exists p, (tr0 ++ tf). auto.
-  - (* Return *) intros Hr. discriminate Hr.
+  - (* Exit *) intros k Hr. discriminate Hr.
   - (* HNil *) intros i ty nm hb H. destruct i; discriminate H.
   - (* HCons *)
     intros ty IHty nm hb IHhb rest IHrest i ty' nm' hb' H. destruct i as [|i]; simpl in H.
@@ -590,7 +590,7 @@ Proof.
       destruct (try_finally_exec rf b rl hs e f P p2 tf ONorm p3 Hfr Hp2 Ef) as (p & tr0 & Hp & Ex).
       exists p, (tr0 ++ tf), p3. split; [exact Hp|]. split; [exact Ex|].
       apply in_or_app; right; exact Hin.
-  - (* Return *) intros Hr. discriminate Hr.
+  - (* Exit *) intros k Hr. discriminate Hr.
   - (* HNil *) intros i ty nm hb H. destruct i; discriminate H.
   - (* HCons *)
     intros ty IHty nm hb IHhb rest IHrest i ty' nm' hb' H. destruct i as [|i]; simpl in H.
@@ -671,6 +671,7 @@ Proof.
     apply orb_false_iff in Hr as [Hr Hrf]. apply orb_false_iff in Hr as [Hr Hre].
     apply orb_false_iff in Hr as [Hrb Hrh].
     rewrite IHb, IHhs, IHe, IHf, Hrb, Hrh, Hre, Hrf; auto. simpl. apply orb_true_r.
+  - intros k Hr. discriminate Hr.
   - intros ty IHty nm hb IHhb rest IHrest Hr.
     apply orb_false_iff in Hr as [Hr Hrr]. apply orb_false_iff in Hr as [Hrt Hrb].
     rewrite IHty, IHhb, IHrest, Hrt; auto.
